@@ -177,7 +177,7 @@ def _step(b: Builder, h: str, profile, H: int, force_mapped: bool = False) -> st
         mapped.append("conv1d")
     unmapped = ["tanh", "relu", "mul_scalar", "neg", "reshape_roundtrip", "slice_cat", "add_scalar", "mul_tensor", "plain_add", "self_add", "sibling_add"]
     if profile.get("extras"):
-        unmapped += ["rotate_half", "where_mask", "gather_argmax", "stack_mean"]
+        unmapped += ["rotate_half", "where_mask", "gather_argmax", "stack_mean", "where_mask2", "argmax_kw"]
     if "inplace_fn" in forms:
         unmapped += ["inplace_fn", "inplace_fn"]
     if profile.get("quant_focus"):
@@ -295,6 +295,21 @@ def _step(b: Builder, h: str, profile, H: int, force_mapped: bool = False) -> st
         m = b.op("gt_scalar", [h], [B, S, D], kind="bool", c=0.0)
         z = b.op("mul_scalar", [h], [B, S, D], c=0.1)
         return b.op("where", [m, h, z], [B, S, D])
+    if choice == "where_mask2":
+        # a mask computed from TWO float tensors that exist only for it: |h| > |tanh(h)| (the non-float node has two float inputs,
+        # so it cannot be bypassed - its float producers lose their only consumer when it is pruned)
+        a_ = b.op("abs", [h], [B, S, D])
+        t_ = b.op("tanh", [h], [B, S, D])
+        b_ = b.op("abs", [t_], [B, S, D])
+        m = b.op("gt_tensor", [a_, b_], [B, S, D], kind="bool")
+        z = b.op("mul_scalar", [h], [B, S, D], c=0.1)
+        return b.op("where", [m, h, z], [B, S, D])
+    if choice == "argmax_kw":
+        # an index computed from a float tensor handed over BY KEYWORD: torch.argmax(input=exp(h), ...)
+        e_ = b.op("exp", [h], [B, S, D])
+        idx = b.op("argmax", [e_], [B, S, 1], kind="int", dim=-1, keepdim=True, kwform=True)
+        g = b.op("gather", [h, idx], [B, S, 1], dim=-1)
+        return b.op("sub", [h, g], [B, S, D])
     if choice == "gather_argmax":
         idx = b.op("argmax", [h], [B, S, 1], kind="int", dim=-1, keepdim=True)
         g = b.op("gather", [h, idx], [B, S, 1], dim=-1)
@@ -440,10 +455,16 @@ def emit_op(o: Dict[str, Any]) -> str:
         return f"{out} = {a[0]}.mean(dim={kw['dim']})"
     if op == "gt_scalar":
         return f"{out} = {a[0]} > {kw['c']!r}"
+    if op == "gt_tensor":
+        return f"{out} = {a[0]} > {a[1]}"
+    if op == "abs":
+        return f"{out} = {a[0]}.abs()"
+    if op == "exp":
+        return f"{out} = torch.exp({a[0]} * 0.1)"
     if op == "where":
         return f"{out} = torch.where({a[0]}, {a[1]}, {a[2]})"
     if op == "argmax":
-        return f"{out} = torch.argmax({a[0]}, dim={kw['dim']}, keepdim={kw['keepdim']})"
+        return f"{out} = torch.argmax({'input=' if kw.get('kwform') else ''}{a[0]}, dim={kw['dim']}, keepdim={kw['keepdim']})"
     if op == "gather":
         return f"{out} = torch.gather({a[0]}, dim={kw['dim']}, index={a[1]})"
     raise AssertionError(op)
@@ -725,6 +746,12 @@ def interpret(prog: Dict[str, Any], params: Dict[str, Any], inputs: List[Any], s
             env[out] = torch.stack(a, dim=kw["dim"])
         elif op == "mean_dim":
             env[out] = a[0].mean(dim=kw["dim"])
+        elif op == "gt_tensor":
+            env[out] = a[0] > a[1]
+        elif op == "abs":
+            env[out] = a[0].abs()
+        elif op == "exp":
+            env[out] = torch.exp(a[0] * 0.1)
         elif op == "gt_scalar":
             env[out] = a[0] > kw["c"]
         elif op == "where":
